@@ -192,6 +192,8 @@ def str2num(x, signed=True, n_word=None, n_frac=None, base=10, return_sizes=Fals
         _n_word_max = None
         _n_frac_max = None
 
+        x = list(x)     # convert a copy: tuples are accepted and the caller's container is never modified
+
         for idx, v in enumerate(x):
             x[idx], _signed, _n_word, _n_frac = str2num(v, signed, n_word, n_frac, base, return_sizes=True)
 
